@@ -85,6 +85,9 @@ func registerSteered(sp steeredProfile) {
 			if !c.Mine(idx) {
 				continue
 			}
+			if sr.Bail() {
+				break
+			}
 			rg := eng.NewRng(c.CaseSeed(idx))
 			p := sp.gen(rg, idx, c.Thorough())
 			p.Prop = sp.prop
